@@ -206,6 +206,9 @@ class MinFlowDecompCycles(walkmodel.AbstractWalkModelDiGraph):
         Note:
             This overloads the `solve()` method from `AbstractWalkModelDiGraph` class.
         """
+        # A new run starts: what an earlier run on this object proved does not count for this one
+        self._is_solved = False
+        self._solution = None
         self.solve_time_start = time.perf_counter()
         utils.logger.info(f"{__name__}: starting to solve the MinFlowDecompCycles model for graph id = {utils.fpid(self.G)}")
 
